@@ -406,6 +406,9 @@ def mk_update(active):
         E.call(Q + "update_search_distribution", cfg, s, pop)
         f2 = s.fields
         st = E.st
+        E.oblige("canary.mean_unchanged", Sym(zr(f2["mean"].at(0)) == zr(sf["mean"].at(0))), assume_after=False, using=[])
+        E.oblige("canary.var_unchanged", C.compare("==", f2["var"], sf["var"]), assume_after=False, using=[])
+        E.oblige("canary.cov_unchanged", Sym(zr(T.as_tensor(f2["cov"]).at(0, 0)) == zr(sf["cov"].at(0, 0))), assume_after=False, using=[])
         # ---- M: mean' is the weighted average of the mu best candidates
         sorts = st.ghost.get("argsorts") or []
         if len(sorts) != 1:
@@ -418,8 +421,13 @@ def mk_update(active):
         st.oblige_forall("mean.ranking_is_permutation", [INT, INT],
                          lambda k, l: z3.Implies(z3.And(in_range(k, P), in_range(l, P), k != l), z3.And(in_range(perm(k), P), perm(k) != perm(l))), hint="k", using=["argsort.perm"])
         best = T.Tensor((mu, n), lambda k, j: samples.at(Sym(perm(C.to_z3(k))), j), REAL)  # the mu best candidates
+        mark = len(st.sums)
         want_mean = T.reduce_axis(T.index(w, (slice(None), None)) * best, 0, "sum")
-        tensor_eq(E, "mean.weighted_recombination_of_mu_best", f2["mean"], want_mean, using=[])
+        spec_nodes = st.sums[mark:]
+        code_node = X.node_of_app(E, T.as_tensor(f2["mean"]).at(Sym(st.fresh("jm", INT))))
+        if spec_nodes and code_node is not None:
+            X.lemma_sum_congr_nodes(E, "mean.lemma_same_terms", code_node, spec_nodes[0], using=[])
+        tensor_eq(E, "mean.weighted_recombination_of_mu_best", f2["mean"], want_mean, using=["mean.lemma_same_terms"])
         tensor_eq(E, "mean.last_mean_is_old_mean", f2["last_mean"], sf["mean"], using=[])
         # ---- S: step size
         e06 = Sym(C.uf("exp", REAL, REAL)(z3.RealVal("3/5")))
@@ -451,9 +459,7 @@ def mk_update(active):
         for a in ("pc", "ps"):
             t = T.as_tensor(f2[a])
             (st.ok if t.ndim == 1 and T.dim_eq(t.shape[0], n) else (lambda nm: st.fail(nm, str(t.shape))))(f"update.{a}_shape")
-        E.oblige("canary.mean_unchanged", Sym(zr(f2["mean"].at(0)) == zr(sf["mean"].at(0))), assume_after=False)
-        E.oblige("canary.var_unchanged", C.compare("==", f2["var"], sf["var"]), assume_after=False)
-        E.oblige("canary.cov_unchanged", Sym(zr(cov2.at(0, 0)) == zr(sf["cov"].at(0, 0))), assume_after=False)
+        E.oblige("canary.end", C.compare("==", sf["var"], 1), assume_after=False, using=[])
     return h
 
 
@@ -503,7 +509,7 @@ def mk_roundtrip(spec):
         E.call(Q + "set_params", net2, E.call(Q + "flat_params", net2))
         for q, (a, b) in enumerate(zip(net2.fields["$leaves"], leaves)):
             tensor_eq(E, f"roundtrip.set_of_flat_keeps_leaf{q}", a, b, using=[])
-        E.oblige("canary.roundtrip", Sym(zr(back.at(0)) == 0), assume_after=False)
+        E.oblige("canary.roundtrip", Sym(zr(back.at(0)) == 0), assume_after=False, using=[])
     return h
 
 
